@@ -49,9 +49,12 @@ if "determinism.sketch_answers_strings" not in CATALOGUE:
         hll = HyperLogLog(precision=4, seed=seed)
         topk = TopK(k=3)
         items = [f"user-{i}" for i in range(12)] + [("tenant", i) for i in range(4)] + [b"raw-%d" % i for i in range(3)]
-        feeder = Feeder("feeder", [cms, bloom, hll, topk])
+        # composite keys (tuples with strings, frozensets, bytes) into a finer HLL as well
+        items += [("tenant-%d" % (i % 5), "endpoint-%d" % i) for i in range(40)] + [frozenset({"a", "k%d" % i}) for i in range(10)] + [b"blob-%d" % i for i in range(10)]
+        hll_fine = HyperLogLog(precision=8, seed=seed)
+        feeder = Feeder("feeder", [cms, bloom, hll, hll_fine, topk])
         sim = make_sim([feeder], 10.0)
-        for i in range(60):
+        for i in range(220):
             it = rng.choice(items)
             sim.schedule(Event(time=ev(i * 1000, "x", feeder).time, event_type="Item", target=feeder, context={"metadata": {"item": it}}))
 
@@ -61,10 +64,11 @@ if "determinism.sketch_answers_strings" not in CATALOGUE:
                 "cms": [cms.estimate(x) for x in probes],
                 "bloom": [bloom.contains(x) for x in probes],
                 "hll": hll.cardinality(),
+                "hll_fine": hll_fine.cardinality(),
                 "topk": [[repr(t.item), t.count, t.error] for t in topk.top()],
             }
 
-        return Scenario(sim, {"feeder": feeder, "sketches": Answers(answers)}, "determinism", True, 60)
+        return Scenario(sim, {"feeder": feeder, "sketches": Answers(answers)}, "determinism", True, 220)
 
     @scenario("determinism.ttl_cache_default_clock", "determinism")
     def ttl_cache_default_clock(seed, params):
@@ -420,3 +424,59 @@ if "determinism.seed_zero_components" not in CATALOGUE:
         for i in range(n):
             sim.schedule(ev(i * 1000, "Tick", sampler, i=i))
         return Scenario(sim, {"sampler": sampler, "view": View()}, "determinism", True, n)
+
+
+if "determinism.control_several_hooks" not in CATALOGUE:
+
+    @scenario("determinism.control_several_hooks", "determinism")
+    def control_several_hooks(seed, params):
+        """Three event hooks and two time-advance hooks whose effects do not commute (they share an accumulator
+        and a journal): the order in which the engine calls them is part of the run."""
+        rng = random.Random(seed)
+
+        class Worker(Entity):
+            def __init__(self, name):
+                super().__init__(name)
+                self.handled = 0
+
+            def handle_event(self, event):
+                self.handled += 1
+                if event.event_type == "Req" and self.handled % 3 == 0:
+                    return [Event(time=self.now + 0.001, event_type="Follow", target=self)]
+                return None
+
+        class Journal:
+            def __init__(self):
+                self.acc = 1
+                self.entries = []
+
+        workers = [Worker(f"w{i}") for i in range(3)]
+        sim = make_sim(workers, 5.0)
+        j = Journal()
+
+        def mk_event_hook(tag, fn):
+            def hook(ev):
+                j.acc = fn(j.acc) % 1_000_003
+                if len(j.entries) < 400:
+                    j.entries.append([tag, ev.event_type, j.acc])
+
+            return hook
+
+        def mk_time_hook(tag, fn):
+            def hook(t):
+                j.acc = fn(j.acc) % 1_000_003
+                if len(j.entries) < 400:
+                    j.entries.append([tag, t.nanoseconds, j.acc])
+
+            return hook
+
+        ctl = sim.control
+        ctl.on_event(mk_event_hook("double", lambda x: x * 2))
+        ctl.on_event(mk_event_hook("plus7", lambda x: x + 7))
+        ctl.on_event(mk_event_hook("square", lambda x: x * x + 1))
+        ctl.on_time_advance(mk_time_hook("t-triple", lambda x: x * 3))
+        ctl.on_time_advance(mk_time_hook("t-minus1", lambda x: x - 1))
+        n = rng.choice([60, 120])
+        for i in range(n):
+            sim.schedule(ev(rng.choice([0, 1_000_000, 2_500_000]) * (i % 7 + 1), "Req", rng.choice(workers)))
+        return Scenario(sim, {"journal": j, "w0": workers[0], "w1": workers[1], "w2": workers[2]}, "determinism", True, n)
